@@ -117,7 +117,10 @@ LEAVES = {
 def rule_leaves(run, F, cfg):
     for leaf, (what, prim, hosted) in LEAVES.items():
         f = F.fn(NM + leaf)
-        cl = [c for n, c in F.fns.items() if n.startswith(f.name + "::{closure")]
+        cone = [F.fns[n] for n in F.cone([f.name]) if F.fns[n].file.endswith("network_matchers.rs") and n != f.name
+                and (n.startswith(f.name + "::") or not re.search(r"::check_pattern_(plain|left|right|left_right)\w*_filter", n))
+                and not n.endswith("is_anchored_by_hostname") and not n.endswith("get_url_after_hostname")]
+        cl = cone
         run.touched(f, *cl)
         prims = [strip_generics(t["callee"]) for c in cl for b, t in c.calls(prim)]
         whole = any(c.calls(r"Iterator::any$") for c in [f] + cl)
@@ -158,6 +161,22 @@ def rule_leaves(run, F, cfg):
                 run.ob("C02.1.leaves", f"{leaf}:remainder-after-host", uses_after,
                        f"{leaf} applies its primitive to get_url_after_hostname(url, hostname), not to the whole URL",
                        config=cfg)
+    # every hostname-anchoring test passes the rule's own hostname, the request hostname and the
+    # wildcard flag of the mask
+    n_a = 0
+    for g in F.fns.values():
+        if not g.file.endswith("network_matchers.rs"):
+            continue
+        for b, t in g.calls(r"^filters::network_matchers::is_anchored_by_hostname$"):
+            n_a += 1
+            a = [g.expr_operand(x) for x in t["args"]]
+            ok = bool(re.search(r"request\.hostname$", a[1])) and \
+                bool(re.search(r"::contains\((arg|up):mask, filters::network::NetworkFilterMask::IS_HOSTNAME_REGEX=", a[2]))
+            run.ob("C02.1.leaves", f"is_anchored_by_hostname-args#{n_a}", ok,
+                   f"is_anchored_by_hostname(filter_hostname, request.hostname, mask.contains(IS_HOSTNAME_REGEX)) — got "
+                   f"({a[0][-30:]}, {a[1][-30:]}, {a[2][-70:]}); a `||host*rest` rule must be allowed to continue inside a label",
+                   site=g.loc(b), config=cfg)
+    run.floor("C02.1.leaves", f"is_anchored_by_hostname call sites [{cfg}]", n_a, 5)
     # regex leaf: only RegexManager::matches decides
     for leaf in ("check_pattern_regex_filter", "check_pattern_regex_filter_at"):
         f = F.fn(NM + leaf)
